@@ -145,7 +145,7 @@ def run(rep, tier):
     vlib.sany("ZebraSchedule")
     zcfg = os.path.join(vlib.BUILD, "cfg", "zebra_%s.cfg" % tier)
     znr, znt = ("{5,6,7,8,9,10,11,12,13,14}", "{4,6,8,10,12,14,16,18,20,24,28,32,36,40}") if thorough else ("{5,6,7,8,9,10,12}", "{4,6,8,10,12,16,20,24}")
-    open(zcfg, "w").write('SPECIFICATION Spec\nCONSTANTS\n  NrSet = %s\n  NtSet = %s\n  Ops = {"residualGive", "smootherTake", "xsmootherTake", "residualTake", "smootherGive"}\n  EmitTables = FALSE\n  FIXED = {"F19"}\n'
+    open(zcfg, "w").write('SPECIFICATION Spec\nCONSTANTS\n  NrSet = %s\n  NtSet = %s\n  Ops = {"residualGive", "smootherTake", "xsmootherTake", "residualTake", "smootherGive"}\n  EmitTables = FALSE\n  FIXED = {"F19", "F21"}\n'
                           'INVARIANTS EpochDisjoint AllRadialOnce AllCirclesOnce\n' % (znr, znt))
     z = vlib.tlc("ZebraSchedule", zcfg, workers=8, heap="8g", tag="zebra", timeout=3000)
     rep.add_tlc(z, "ZebraSchedule.tla: EpochDisjoint, AllRadialOnce, AllCirclesOnce for every shape nr in %s, ntheta in %s, 2..9 circles, both boundary modes" % (znr, znt))
@@ -159,10 +159,11 @@ def run(rep, tier):
     contain_shapes = [(9, 12, 4, 0), (9, 12, 5, 1), (8, 8, 3, 0), (10, 16, 6, 0), (10, 16, 7, 1)]
     if thorough:
         contain_shapes += [(12, 20, 9, 0), (12, 20, 2, 1), (7, 4, 3, 0), (9, 12, 6, 1), (8, 8, 5, 1), (12, 8, 8, 0), (10, 16, 2, 0)]
-        race_shapes = [(nr, nt, nc, d) for nr in (7, 8, 9, 10, 11, 12, 13) for nt in (4, 6, 8, 10, 12, 14, 16, 20, 24) for nc in range(2, 11) if nc <= nr - 3 for d in (0, 1)]
+        race_shapes = [(nr, nt, nc, d) for nr in (7, 8, 9, 10, 11, 12, 13) for nt in (4, 6, 8, 10, 12, 14, 16, 20, 24) for nc in range(0, 11) if nc <= nr - 3 for d in (0, 1)]
     else:
         race_shapes = [(7, 4, 2, 0), (7, 6, 3, 1), (7, 8, 4, 0), (8, 6, 5, 0), (9, 8, 6, 1), (10, 12, 7, 0), (12, 8, 8, 1), (12, 10, 9, 0),
-                       (9, 16, 3, 0), (10, 4, 5, 1), (12, 20, 4, 0), (9, 10, 2, 1)]
+                       (9, 16, 3, 0), (10, 4, 5, 1), (12, 20, 4, 0), (9, 10, 2, 1),
+                       (7, 8, 0, 0), (8, 6, 0, 0), (9, 12, 1, 0), (7, 8, 0, 1), (10, 16, 0, 0)]      # no / one circle: residuals and direct solvers only
     race_shapes = list(dict.fromkeys(contain_shapes + race_shapes))
     tabs, err = oc.intended_tables(rep, contain_shapes)
     if err:
@@ -196,6 +197,8 @@ def run(rep, tier):
             obs, err = oc.observe_ops(nr, nt, nc, d, 0, rec=rec)
             for op in oc.ZEBRA_OPS:
                 if op == "xsmootherTake" and not (nr % 2 == 1 and nt % 4 == 0 and nc >= 3):
+                    continue
+                if op in ("smootherTake", "smootherGive") and nc < 2:
                     continue      # the extrapolated smoother exists only on grids that have a coarse grid
                 why = oc.contained(obs.get(op, []), tabs[(op, nr, nt, nc, bool(d))])
                 nops += 1
